@@ -23,3 +23,19 @@ Proof.
     destruct Hb as [[Hwf Hv] Hbs]. cbn [snd]. rewrite Hbs.
     rewrite <- (app_nil_r (bundle_bytes b)). exact (dec_bundle_enc now b [] Hwf Hv).
 Qed.
+
+Lemma bundle_bytes_ne b : bundle_bytes b <> [].
+Proof. unfold bundle_bytes. discriminate. Qed.
+
+Lemma tcpcl_send_bundle : forall now b m tid evs st outs,
+  good now b -> 1 <= m ->
+  send_run (send_init (bundle_bytes b) m tid) evs = Some (st, outs) ->
+  forallb (honest_event (segments (bundle_bytes b) m tid)) evs = true ->
+  ss_result st = Some SrOk ->
+  exists bs, rx_delivered outs = [(tid, bs)] /\ dec_bundle now bs = Some (b, []).
+Proof.
+  intros now b m tid evs st outs [Hwf Hv] Hm Hrun Hh Hok.
+  destruct (tcpcl_success_sound (bundle_bytes b) m tid evs st outs (bundle_bytes_ne b) Hm Hrun Hh Hok) as (_ & _ & _ & Hd).
+  exists (bundle_bytes b). split; [exact Hd|].
+  rewrite <- (app_nil_r (bundle_bytes b)). exact (dec_bundle_enc now b [] Hwf Hv).
+Qed.
